@@ -198,12 +198,13 @@ def judge_range(ctx, start, stop, step, size, via):
         ctx.violate_exc("range:raises", key, e, spec=spec)
 
 
-def judge_index(ctx, coords, value, raise_error):
+def judge_index(ctx, coords, value, raise_error, attr_step=None):
     import xarray as xr
 
     from soundevent.arrays import dimensions as D
 
-    arr = xr.DataArray(np.zeros(len(coords)), dims=["x"], coords={"x": coords})
+    cvar = xr.Variable("x", coords, attrs={"step": attr_step}) if attr_step is not None else coords
+    arr = xr.DataArray(np.zeros(len(coords)), dims=["x"], coords={"x": cvar})
     spec = {"kind": "index", "coords": _cspec(coords), "value": value, "raise_error": raise_error}
     inside = coords[0] <= value <= coords[-1]
     ctx.mon("get_coord_index.exceptions")
@@ -296,9 +297,12 @@ def run(ctx):
     # ---- coordinate lookup
     for _ in range(ctx.scale(2500, 15000)):
         kind = rng.choice(["regular", "regular", "irregular", "single"])
+        attr_step = None
         if kind == "regular":
             start = rng.choice(STARTS); step = rng.choice(STEPS); n = rng.choice([1, 2, 3, 5, 10, 50, 500])
             coords = start + np.arange(n) * step
+            if rng.random() < 0.6:
+                attr_step = step
         elif kind == "irregular":
             n = rng.randint(2, 12)
             coords = np.cumsum([rng.uniform(0.01, 3) for _ in range(n)]) + rng.uniform(0, 10)
@@ -330,7 +334,37 @@ def run(ctx):
         raise_error = rng.random() < 0.5
         ctx.case(("index", kind, where, "raise" if raise_error else "clamp"),
                  {"kind": "index", "coords": _cspec(coords), "value": v, "raise_error": raise_error}, nontrivial=where != "on")
-        judge_index(ctx, coords, v, raise_error)
+        judge_index(ctx, coords, v, raise_error, attr_step)
+
+    # ---- every coordinate of axes built by the library itself (these carry the `step` attribute)
+    import xarray as xr
+
+    from soundevent.arrays import dimensions as D
+
+    sweep_n = [100, 1000] if not ctx.thorough else [100, 1000, 5000]
+    k = 0
+    for start in STARTS:
+        for step in STEPS:
+            for n in sweep_n:
+                k += 1
+                if k % ctx.nshards != ctx.shard:
+                    continue
+                try:
+                    var = D.create_range_dim("x", start, start + (n + 0.5) * step, step=step)
+                except Exception:
+                    continue
+                coords = np.asarray(var.data)
+                arr = xr.DataArray(np.zeros(len(coords)), dims=["x"], coords={"x": var})
+                ctx.case(("index_sweep", "range_axis_with_step_attr", "frac" if step != int(step) else "int"),
+                         {"kind": "index_sweep", "start": start, "step": step, "n": n}, nontrivial=step != int(step))
+                for i in range(len(coords)):
+                    for v in (float(coords[i]), float((coords[i] + coords[i + 1]) / 2) if i + 1 < len(coords) else float(coords[i])):
+                        try:
+                            D.get_coord_index(arr, "x", v)
+                        except Exception as e:
+                            ctx.violate_exc("index:raises", f"index:raises:{type(e).__name__}", e, spec={"kind": "index_sweep", "start": start, "step": step, "n": n, "value": v})
+                            break
+    ctx.exhaustive_subspaces.append("get_coord_index at every coordinate and every midpoint of create_range_dim axes: 4 starts x 11 steps x lengths " + str(sweep_n))
 
     # ---- set_value_at_pos
     for _ in range(ctx.scale(400, 3000)):
